@@ -254,8 +254,10 @@ def rule_r2(ctx):
         rr.instances += 1
         for pr in prs:
             what = f"wrapper|n={n}|{short_ctx(pr, 60)}"
+            if pr.outcome == "abort":
+                raise AnalysisError(f"C01-R2: get_expr_wrapper cannot be analysed: {pr.raised}")
             if pr.outcome != "ok":
-                rr.fail("C01-R2|wrapper|abort", f"get_expr_wrapper cannot be analysed: {pr.raised}", what=what)
+                rr.fail("C01-R2|wrapper|raises", f"the expression wrapper raises for a block of {n} statement(s): {getattr(pr.raised, 'exc', pr.raised)} {getattr(pr.raised, 'msg', '')}", what=what)
                 continue
             evs, w = events_of(pr.result)
             params = [e for e in evs if e.kind == "param"]
